@@ -22,7 +22,7 @@ DIAG_T = DIAG + [127, 128, 129, 255, 256, 257, 1024, 2048]
 
 
 def pairs(tier):
-    r = 7 if tier == 'quick' else 13
+    r = 7 if tier == 'quick' else 25
     ps = [(m, n) for m in range(r) for n in range(r)]
     d = DIAG if tier == 'quick' else DIAG_T
     ps += [(k, k) for k in d]
@@ -31,13 +31,13 @@ def pairs(tier):
 
 
 def sizes(tier):
-    return list(range(7 if tier == 'quick' else 13)) + (DIAG if tier == 'quick' else DIAG_T)
+    return list(range(7 if tier == 'quick' else 41)) + (DIAG if tier == 'quick' else [x for x in DIAG_T if x > 40])
 
 
 class BinOp(Case):
     prop = 'C08'
     name = 'C08.binop'
-    bounds = 'ops + - & | ^ // hd on Bits x Bits for sizes (m,n) in 0..6^2 (quick) / 0..12^2 (thorough) plus word-boundary sizes up to 65 (quick) / 2048 (thorough); all payloads symbolic'
+    bounds = 'ops + - & | ^ // hd on Bits x Bits for sizes (m,n) in 0..6^2 (quick) / 0..24^2 (thorough) plus word-boundary sizes up to 65 (quick) / 2048 (thorough); all payloads symbolic'
     OPS = ['add', 'sub', 'and', 'or', 'xor', 'cat', 'mul']
 
     def shapes(self, tier):
